@@ -19,7 +19,13 @@ enum Call {
     SelectBlock(Option<usize>),
     Pop,
     Id,
+    /// select_function_by_name with name number i of `NAMES`
+    SelectByName(usize),
+    /// insert_types_global_values of a type declaration WITHOUT result id (a placeholder a caller may park there)
+    InsertTgv(usize),
 }
+
+const NAMES: &[&str] = &["main", "f", ""];
 
 #[derive(Clone, Copy, Debug, PartialEq)]
 enum Res {
@@ -82,6 +88,9 @@ fn play_opts(calls: &[Call], rng: &mut Rng, r: &mut Report, rp: &dyn Fn() -> Jso
         let name = call_name(c);
         let mut trace = String::new();
         let mut ctx = ArgCtx::default();
+        if stage == "n" {
+            ctx.tiny_strings = Some(NAMES);
+        }
         if !returned.is_empty() && (step % 2 == 1 || pool_always) {
             ctx.small_pool = Some(returned.iter().rev().take(6).cloned().collect());
         }
@@ -94,9 +103,22 @@ fn play_opts(calls: &[Call], rng: &mut Rng, r: &mut Report, rp: &dyn Fn() -> Jso
         let outcome = catch(|| -> Res {
             match c {
                 Call::BeginFunction => match b.begin_function(1, None, FunctionControl::NONE, 2) {
+                    Ok(id) => {
+                        got_word = Some(id);
+                        Res::Ok
+                    }
+                    Err(_) => Res::Err,
+                },
+                Call::SelectByName(i) => match b.select_function_by_name(NAMES[*i % NAMES.len()]) {
                     Ok(_) => Res::Ok,
                     Err(_) => Res::Err,
                 },
+                Call::InsertTgv(i) => {
+                    let op = [rspirv::spirv::Op::TypeBool, rspirv::spirv::Op::TypeVoid, rspirv::spirv::Op::TypeSampler][*i % 3];
+                    let ip = if *i % 2 == 0 { rspirv::dr::InsertPoint::End } else { rspirv::dr::InsertPoint::Begin };
+                    b.insert_types_global_values(ip, dr::Instruction::new(op, None, None, vec![]));
+                    Res::NoResult
+                }
                 Call::EndFunction => match b.end_function() {
                     Ok(_) => Res::Ok,
                     Err(_) => Res::Err,
@@ -223,6 +245,33 @@ fn play_opts(calls: &[Call], rng: &mut Rng, r: &mut Report, rp: &dyn Fn() -> Jso
                 _ => {}
             }
         }
+        // select_function_by_name: Ok iff a function's definition id carries an OpName with that string; then
+        // exactly such a function is selected and no block
+        if let Call::SelectByName(i) = c {
+            let want_name = NAMES[*i % NAMES.len()];
+            let m = b.module_ref();
+            let named: Vec<u32> = m.debug_names.iter().filter(|n| n.class.opcode == rspirv::spirv::Op::Name && matches!(n.operands.get(1), Some(dr::Operand::LiteralString(s)) if s == want_name)).filter_map(|n| match n.operands.first() { Some(dr::Operand::IdRef(t)) => Some(*t), _ => None }).collect();
+            let candidates: Vec<usize> = m.functions.iter().enumerate().filter(|(_, f)| f.def_id().map(|d| named.contains(&d)).unwrap_or(false)).map(|(k, _)| k).collect();
+            match res {
+                Res::Ok => {
+                    if !b.selected_function().map(|f| candidates.contains(&f)).unwrap_or(false) || b.selected_block().is_some() {
+                        fail(r, "select-by-name", format!("select_function_by_name({:?}) returned Ok; functions whose definition is named so: {:?}", want_name, candidates));
+                        return;
+                    }
+                }
+                Res::Err => {
+                    if !candidates.is_empty() {
+                        fail(r, "select-by-name", format!("select_function_by_name({:?}) failed although function(s) {:?} carry that name", want_name, candidates));
+                        return;
+                    }
+                    if (b.selected_function(), b.selected_block()) != sel_before {
+                        fail(r, "failed-call-changed-selection", "the call returned an error but the selection changed".into());
+                        return;
+                    }
+                }
+                Res::NoResult => {}
+            }
+        }
         // (4) a failed call leaves the instructions of the module exactly as they were
         if res == Res::Err {
             if let Some(d) = rs::module_diff(&before, b.module_ref()) {
@@ -281,7 +330,7 @@ fn by_name(name: &str) -> usize {
 }
 
 pub fn run(cfg: &Cfg, rep: &mut Report) {
-    rep.rule = "Builder call histories on a fresh builder; after EVERY call: no panic, the selection designates an existing function/block or nothing, the Ok/Err outcome equals the iff-rule evaluated on the selection observed before the call, terminators/end_function close block/function, and a call that returned Err left the module (deep section-by-section comparison with a snapshot) and the selection unchanged. Exhaustive over all histories up to length 4 (quick) / 5 (thorough) of an 18-call alphabet, then random histories of 1..60 calls over all ~1150 generated call stubs (insert_ forms with in-range offsets), select_function/select_block with in- and out-of-range indices, pop_instruction, id. distinct_nontrivial = distinct (call class, selection state before, outcome) triples".into();
+    rep.rule = "Builder call histories on a fresh builder; after EVERY call: no panic, the selection designates an existing function/block or nothing, the Ok/Err outcome equals the iff-rule evaluated on the selection observed before the call, terminators/end_function close block/function, and a call that returned Err left the module (deep section-by-section comparison with a snapshot) and the selection unchanged. Exhaustive over all histories up to length 4 (quick) / 5 (thorough) of an 18-call alphabet, then random histories of 1..60 calls over all ~1150 generated call stubs (insert_ forms with in-range offsets), select_function/select_block with in- and out-of-range indices, pop_instruction, id; stage `names-scenario`: name / entry_point with strings from a three-name pool and ids earlier calls returned, select_function_by_name in every selection state (Ok iff a function's definition carries an OpName with that string; then that function and no block are selected), type requests after id-less type declarations were parked in the global section. distinct_nontrivial = distinct (call class, selection state before, outcome) triples".into();
     let pl = pools();
     let alphabet: Vec<Call> = vec![
         Call::BeginFunction,
@@ -371,6 +420,29 @@ pub fn run(cfg: &Cfg, rep: &mut Report) {
             });
         }
         play_opts(&calls, rng, r, &|| crate::util::replay_ref(cfg, "ext-inst-scenario", idx), "e", true);
+    });
+    // names: functions named through OpName and through OpEntryPoint (strings from a three-name pool, ids from
+    // the ids earlier calls returned), looked up by name in every selection state; type requests after a
+    // caller parked an id-less type declaration in the global section
+    let (nm, ep, tb, tv) = (by_name("name"), by_name("entry_point"), by_name("type_bool"), by_name("type_void"));
+    run_stage(cfg, rep, "names-scenario", cfg.n(20_000, 2_000_000), |idx, rng, r| {
+        let mut calls = vec![];
+        for _ in 0..rng.range(4, 24) {
+            calls.push(match rng.below(16) {
+                0 | 1 => Call::BeginFunction,
+                2 | 3 => Call::BeginBlock,
+                4 => Call::Stub(ret),
+                5 => Call::EndFunction,
+                6 | 7 => Call::Stub(nm),
+                8 | 9 => Call::Stub(ep),
+                10 | 11 => Call::SelectByName(rng.below(3)),
+                12 => Call::SelectBlock(Some(rng.below(3))),
+                13 => Call::InsertTgv(rng.below(6)),
+                14 => Call::Stub(if rng.chance(1, 2) { tb } else { tv }),
+                _ => Call::SelectFunction(Some(rng.below(3))),
+            });
+        }
+        play_opts(&calls, rng, r, &|| crate::util::replay_ref(cfg, "names-scenario", idx), "n", true);
     });
     rep.extra.push(("x_exhaustive_histories".into(), Json::obj().set("alphabet", alphabet.len()).set("max_length", maxlen).set("histories", total)));
 }
